@@ -33,6 +33,10 @@
    method set go/types computes for a struct (used by the fixed merge) is computed by [go_ms],
    the selector rule of the Go specification on the embedding tree; the correspondence run
    compares [go_ms] with go/types' own answer on every generated type.
+   TBasic s stands for the default branch of ExtractTypeRef (s = go/types' String(); for the
+   typed basic types of parameters the TrimPrefix "untyped " is the identity, and so is the
+   types.Default of fixes/C13-untyped-kinds.patch, which only changes untyped constant kinds —
+   outside this property).  *types.Named and *types.Alias are the one constructor TNamed.
    Not mirrored: Param.TypeArgNames (a second ExtractTypeRef over the type arguments that
    addNamed has just visited: same calls, no new state, not part of Signature()), comments. *)
 From Coq Require Import List Bool String Ascii NArith Arith DecimalString.
@@ -657,3 +661,27 @@ Definition spec_added (priv : bool) (t : tree) (n : string) : bool :=
 
 Definition spec_methodb (priv emb : bool) (t : tree) (n : string) : bool :=
   mem n (vis_names priv t) || (emb && spec_added priv t n).
+
+(* ---- what an import line binds (specification of ImportString) ---- *)
+(* packages mentioned by a type, with the package name go/types reports for them *)
+Fixpoint ty_pkgs (t : ty) : list (string * string) :=
+  match t with
+  | TBasic _ => []
+  | TNamed pkg _ targs =>
+      ((match pkg with Some pp => [pp] | None => [] end) ++ flat_map ty_pkgs targs)%list
+  | TPtr x | TSlice x | TArray _ x => ty_pkgs x
+  | TMap k v => (ty_pkgs k ++ ty_pkgs v)%list
+  | TFunc ps _ rs => (flat_map (fun p : pinfo * ty => ty_pkgs (snd p)) ps ++
+                      flat_map (fun p : pinfo * ty => ty_pkgs (snd p)) rs)%list
+  end.
+
+Fixpoint tree_types (t : tree) : list ty :=
+  match t with
+  | Tr self own embs =>
+      (self :: map (fun m => TFunc (m_ps m) (m_variadic m) (m_rs m)) own ++ flat_map tree_types embs)%list
+  end.
+
+(* the name the Go compiler binds for the import line ImportString() prints, given the package
+   name [real p] declared in the directory of path p *)
+Definition bound_name (real : string -> string) (i : imp) : string :=
+  if i_alias_is_pkg i then real (i_path i) else i_alias i.
